@@ -145,6 +145,21 @@ pub enum InterpolateError {
     OutOfBounds(String),
 }
 
+/// panics when the buffer handed to `interp_array_into` does not have the required shape
+/// (query shape followed by the data shape without the interpolated axes)
+fn assert_buffer_shape(expect: &[usize], got: &[usize]) {
+    if expect == got {
+        return;
+    }
+    match expect.iter().zip(got).position(|(e, g)| e != g) {
+        Some(axis) if expect.len() == got.len() => panic!(
+            "buffer has the wrong shape in axis {axis}, expected: [{}], got: [{}] (expected: {expect:?}, got: {got:?})",
+            expect[axis], got[axis]
+        ),
+        _ => panic!("buffer has the wrong shape, expected: {expect:?}, got: {got:?}"),
+    }
+}
+
 /// cast `a` from type `A` to type `B` without any safety checks
 ///
 /// ## Safety
